@@ -627,7 +627,10 @@ def run_wrap(task):
             # mark, a combining mark after punctuation - in paired lines (the two section lists are cut differently) and
             # in unchanged lines of a highlighted file (the syntax sections are cut at token borders)
             for a, b in ((b"\xe2\xac\x86\xef\xb8\x8f", b"\xe2\xac\x87\xef\xb8\x8f"), (b"x\xe2\x80\x8b", b"y\xe2\x80\x8b"),
-                         (b"{\xcc\x81", b"}\xcc\x81"), (b"\xe2\x80\x8f\xd7\xa9", b"\xe2\x80\x8f\xd7\x9c")):
+                         (b"{\xcc\x81", b"}\xcc\x81"), (b"\xe2\x80\x8f\xd7\xa9", b"\xe2\x80\x8f\xd7\x9c"),
+                         # zero-width-joiner sequences (man / woman technologist), check mark / cross with selector
+                         (b"\xf0\x9f\x91\xa8\xe2\x80\x8d\xf0\x9f\x92\xbb", b"\xf0\x9f\x91\xa9\xe2\x80\x8d\xf0\x9f\x92\xbb"),
+                         (b"\xe2\x9c\x94\xef\xb8\x8f", b"\xe2\x9c\x96\xef\xb8\x8f")):
                 for k in range(0, w // 2 + 2):
                     pad = b"w" * k
                     inputs.append(head + b"-" + pad + a + b" tail of the line\n+" + pad + b + b" tail of the line\n")
@@ -643,7 +646,7 @@ def run_wrap(task):
                     if isinstance(r, Exception) or r.panic:
                         msg = str(r) if isinstance(r, Exception) else r.panic
                         klass = "crash:%s:%s" % ("hang" if isinstance(r, Hang) else "panic", explore.crash_site(msg))
-                        if any(z in inp for z in (b"\xef\xb8\x8f", b"\xe2\x80\x8b", b"\xe2\x80\x8f", b"\xcc\x81")):
+                        if any(z in inp for z in (b"\xef\xb8\x8f", b"\xe2\x80\x8b", b"\xe2\x80\x8f", b"\xcc\x81", b"\xe2\x80\x8d")):
                             klass += ":cluster-or-zero-width"     # (a class of its own: see known_findings.json)
                         if klass not in viols:
                             v = Violation(klass, msg, inp.split(b"\n")[:-1], None, None, msg)
